@@ -720,6 +720,52 @@ for _tag, _shape, _slots in @@CONS@@:
     _make()
 '''
 
+# entries registered with a node whose path is RELATIVE, used by task modules of different directories through ONE catalog
+# object: every task must agree on one location per entry, and the value returned must be the value received
+RELCAT = '''\
+from pathlib import Path
+from pytask import DataCatalog, PathNode, PickleNode
+NAME = @@NAME@@
+CAT = DataCatalog(name="".join(chr(c) for c in NAME))
+for _entry, _kind, _rel in @@ENTRIES@@:
+    if _kind == "pickle":
+        CAT.add(_entry, PickleNode(name=_entry, path=Path(_rel)))
+    elif _kind == "pathnode":
+        CAT.add(_entry, PathNode(name=_entry, path=Path(_rel)))
+    else:
+        CAT.add(_entry, Path(_rel))
+'''
+
+REL_IMPORT = '''\
+import os, sys
+sys.path.insert(0, @@TOP@@)
+from relcat import CAT, NAME as _RELNAME
+'''
+
+RELPROD = REL_IMPORT + '''\
+for _tag, _entry, _kind, _b64 in @@PRODS@@:
+    def _make(tag=_tag, entry=_entry, kind=_kind, b=_b64):
+        @task(id=tag, produces=CAT[entry])
+        def produce_rel():
+            v = pickle.loads(base64.b64decode(b))
+            _log({"k": "prod", "tag": tag, "cat": _RELNAME, "entry": [ord(c) for c in entry], "canon": canon(v)})
+            return v
+    _make()
+'''
+
+RELCONS = REL_IMPORT + '''\
+for _tag, _entry, _kind in @@CONS@@:
+    def _make(tag=_tag, entry=_entry, kind=_kind):
+        @task(id=tag, kwargs={"x": CAT[entry]})
+        def consume_rel(x, out: Annotated[Path, Product] = Path(__file__).parent / ("out_" + tag + ".txt")):
+            if kind != "pickle":        # a path node hands over its path: the value is the text stored there
+                _log({"k": "eloc", "tag": tag, "cat": _RELNAME, "entry": [ord(c) for c in entry], "path": os.path.normpath(os.fspath(x))})
+                x = Path(x).read_text() if Path(x).exists() else "<missing file>"
+            _log({"k": "cons", "tag": tag, "cat": _RELNAME, "entry": [ord(c) for c in entry], "canon": canon(x)})
+            out.write_text("done")
+    _make()
+'''
+
 # where a module's catalogs store their files (logged when the module is imported)
 LOC = '''\
 import os
@@ -729,7 +775,7 @@ for _c, _o in CATS.items():
 
 
 def write_module(path: Path, log: Path, cats, producers=None, consumers=None, multi=None, memprod=None, memcons=None, loc=False,
-                 comment: str = ""):
+                 comment: str = "", relprod=None, relcons=None, top: str = ""):
     src = MODULE_HEAD.format(canon_src=CANON_SRC, log=str(log), cats=cats)
     if producers:
         src += PRODUCERS.format(specs=producers)
@@ -741,6 +787,10 @@ def write_module(path: Path, log: Path, cats, producers=None, consumers=None, mu
         src += MEMPROD.replace("@@PRODS@@", repr(memprod))
     if memcons:
         src += MEMCONS.replace("@@CONS@@", repr(memcons))
+    if relprod:
+        src += RELPROD.replace("@@TOP@@", repr(top)).replace("@@PRODS@@", repr(relprod))
+    if relcons:
+        src += RELCONS.replace("@@TOP@@", repr(top)).replace("@@CONS@@", repr(relcons))
     if loc:
         src += LOC
     src = comment + src
@@ -796,8 +846,19 @@ def random_e2e(rng, pid: int, f5: bool):
     lay_entries = rng.sample(["x", "y z", "é", "", "k.pkl"], 2)
     layout = {"kind": LAYOUTS[pid % len(LAYOUTS)], "cat": cps("shared-" + base), "entries": [cps(e) for e in lay_entries],
               "values": [b64(random_value(rng)) for _ in lay_entries], "hashseeds": [rng.randrange(1, 1 << 16) for _ in range(2)]}
+    # entries registered with relative-path nodes (PickleNode / PathNode / a plain relative Path), producer and dependents in
+    # modules of different directories, old files lying at every location a per-directory resolution would pick
+    kinds = ["pickle", "pathnode", "plain"]
+    rng.shuffle(kinds)
+    rel_entries = []
+    for j, kind in enumerate(kinds[: rng.randint(2, 3)]):
+        rel = rng.choice(["", "store/", "deep/er/"]) + f"r{j}" + (".pkl" if kind == "pickle" else ".txt")
+        val = random_value(rng) if kind == "pickle" else rand_unicode(rng, rng.randint(1, 12)) + "!"
+        rel_entries.append([f"rel{j}" + rng.choice(["", " x", "é"]), kind, rel, b64(val)])
+    relnode = {"cat": cps("rel-" + base), "entries": rel_entries, "hashseeds": [rng.randrange(1, 1 << 16) for _ in range(2)],
+               "dirs": rng.sample(["train", "evaluate/deep", "a_first", "m/n"], 2)}
     return {"id": f"e{pid}", "cats": [cps(c) for c in cats], "pairs": [[cps(c), cps(e)] for c, e in pairs],
-            "v1": v1, "v2": v2, "multi": None if f5 else multi,
+            "v1": v1, "v2": v2, "multi": None if f5 else multi, "relnode": None if f5 or pid % 8 not in (1, 3, 6) else relnode,
             # budget: of every 8 cases 6 carry the in-memory history and 5 the layout history (one per way of marking the top)
             "memory": None if f5 or pid % 8 >= 6 else memory, "layout": None if f5 or pid % 8 >= 5 else layout,
             "hashseeds": [rng.randrange(1, 1 << 16) for _ in range(3)], "f5": f5, "split": rng.randint(1, max(1, len(pairs) - 1))}
@@ -906,14 +967,63 @@ def run_layout_history(base: Path, case: dict):
     return builds, logs
 
 
+def run_relnode_history(base: Path, case: dict):
+    """2 builds: producers in one directory, dependents in another; the second build adds dependents in a third directory
+    (sorted last, so that the order in which modules are collected does not change)."""
+    rel = case["relnode"]
+    top = new_project(base, "e2e_rel_" + case["id"])
+    log = top / "log.jsonl"
+    (top / "relcat.py").write_text(RELCAT.replace("@@NAME@@", repr(rel["cat"]))
+                                   .replace("@@ENTRIES@@", repr([[e, k, r] for e, k, r, _ in rel["entries"]])))
+    d_prod, d_cons, d_late = rel["dirs"][0], rel["dirs"][1], rel.get("late_dir", "zz_late")
+    cand = {e: [top / d / r for d in (d_prod, d_cons, d_late, ".")] for e, k, r, _ in rel["entries"]}
+
+    def stamps():
+        return {e: {str(f): (f.stat().st_mtime_ns, f.stat().st_size) for f in fs if f.exists()} for e, fs in cand.items()}
+    for d in (d_prod, d_cons, d_late, "."):            # old files wherever a per-directory resolution would look
+        for e, k, r, _ in rel["entries"]:
+            f = top / d / r
+            f.parent.mkdir(parents=True, exist_ok=True)
+            if k == "pickle":
+                f.write_bytes(pickle.dumps("OLD VALUE"))
+            else:
+                f.write_text("OLD VALUE")
+    write_module(top / d_prod / "task_train.py", log, [], relprod=[[f"rp{i}", e, k, v] for i, (e, k, _, v) in enumerate(rel["entries"])], top=str(top))
+    write_module(top / d_cons / "task_eval.py", log, [], relcons=[[f"rc{i}", e, k] for i, (e, k, _, _) in enumerate(rel["entries"])], top=str(top))
+    builds, logs = [], []
+
+    def build(i):
+        before = stamps()
+        r = run_build([str(top)], rel["hashseeds"][i % len(rel["hashseeds"])], top / f"res{i}.json")
+        r["label"] = f"rel{i}"
+        builds.append(r)
+        lines = _read_log(log, sum(1 for x in logs for rec in x if rec["k"] != "wloc"))
+        after = stamps()
+        for e in cand:          # where the entry's value was WRITTEN in this build (observed on the file system)
+            for f, st in after[e].items():
+                if before[e].get(f) != st:
+                    lines.append({"k": "wloc", "cat": rel["cat"], "entry": cps(e), "path": os.path.normpath(f)})
+        logs.append(lines)
+
+    build(0)
+    write_module(top / d_late / "task_late.py", log, [], relcons=[[f"rl{i}", e, k] for i, (e, k, _, _) in enumerate(rel["entries"])], top=str(top))
+    build(1)
+    for i in range(len(rel["entries"])):      # third session: the same modules; the late dependents must run again
+        (top / d_late / f"out_rl{i}.txt").unlink(missing_ok=True)
+    build(2)
+    return builds, logs
+
+
 def run_e2e(ctx, base: Path, case: dict):
     """The histories of one case (main: 3 builds, in-memory catalog: 3 builds, root layout: 2 builds) run side by side; every
     build is a fresh interpreter. Returns (None, builds, logs) with builds[i]["label"] naming history and build number."""
-    jobs = [run_main_history]
+    jobs = [] if case.get("only_relnode") else [run_main_history]
     if case.get("memory"):
         jobs.append(run_memory_history)
     if case.get("layout"):
         jobs.append(run_layout_history)
+    if case.get("relnode"):
+        jobs.append(run_relnode_history)
     with ThreadPoolExecutor(max_workers=len(jobs)) as ex:
         outs = list(ex.map(lambda f: f(base, case), jobs))
     builds = [b for bs, _ in outs for b in bs]
@@ -951,6 +1061,34 @@ def check_e2e(ctx, case: dict, builds, logs):
                               f"{case['layout']['kind']}) resolves to {len(ps)} different storage directories in build {i}: "
                               f"{sorted(os.path.relpath(p, os.path.commonpath(sorted(ps))) for p in ps)[:3]}", rep, finding=fid)
                 return
+    elocs: dict[tuple, set] = {}
+    for i, lines in zip(labels, logs):      # the location of an entry per build: as seen by each task that received its path
+        for rec in lines:                   # ("eloc") and where its value was written ("wloc", observed on the file system)
+            if rec["k"] in ("eloc", "wloc"):
+                elocs.setdefault((i, tuple(rec["cat"]), tuple(rec["entry"])), set()).add(rec["path"])
+    for (i, c, e), ps in elocs.items():
+        if len(ps) > 1:
+            ctx.violation(f"entry-split: entry ({s_of(c)[:30]!r}, {s_of(e)[:20]!r}), registered with a relative-path node and used by "
+                          f"tasks of different directories, is seen at {len(ps)} locations in build {i}: "
+                          f"{sorted(os.path.relpath(p, os.path.commonpath(sorted(ps))) for p in ps)[:3]}", rep, finding=fid)
+            return
+    # entry-location-stable: the same (catalog, entry) is at the same place in every session of the history
+    if case.get("relnode"):
+        kinds = {tuple(cps(e)): k for e, k, _, _ in case["relnode"]["entries"]}
+        rl = [i for i in labels if i.startswith("rel")]
+        for a, b in zip(rl, rl[1:]):
+            for (i, c, e), ps in sorted(elocs.items()):
+                qs = elocs.get((b, c, e))
+                if i != a or not qs or len(ps) != 1 or len(qs) != 1 or ps == qs:
+                    continue
+                # F44 (narrow): the entry was registered with a node OBJECT whose path is relative, and the set of task modules
+                # changed between the two sessions (here: between the first and the second build a module is added)
+                f44 = kinds.get(e) in ("pickle", "pathnode") and (a, b) == ("rel0", "rel1")
+                ctx.violation(f"entry-location-unstable: entry ({s_of(c)[:30]!r}, {s_of(e)[:20]!r}) [{kinds.get(e)}] is at "
+                              f"{os.path.relpath(sorted(ps)[0], os.path.commonpath(sorted(ps | qs)))} in session {a} and at "
+                              f"{os.path.relpath(sorted(qs)[0], os.path.commonpath(sorted(ps | qs)))} in session {b}"
+                              + (" (a task module was added in between)" if (a, b) == ("rel0", "rel1") else " (same modules)"),
+                              rep, finding="F44" if f44 and fid is None else fid)
     for i, b in zip(labels, builds):
         if b["crash"] or b["exit_code"] != 0:
             ctx.violation(f"e2e-exit: build {i} of a project whose tasks only pass values through catalog entries ended with "
@@ -962,7 +1100,7 @@ def check_e2e(ctx, case: dict, builds, logs):
         if i.startswith("mem"):
             last = {k: v for k, v in last.items() if k[0] != tuple(memory["name"])}    # in-memory entries are empty in a new session
         for rec in lines:
-            if rec["k"] == "loc":
+            if rec["k"] in ("loc", "eloc", "wloc"):
                 continue
             if rec["k"] == "shape":
                 if rec["n"] != rec["want"]:
@@ -990,12 +1128,14 @@ def check_e2e(ctx, case: dict, builds, logs):
     if case.get("layout"):
         ctx.dist[f"e2e:layout={case['layout']['kind']}"] += 1
     # non-vacuity of the observation: new consumers of builds 1 and 2 must have run
-    want = [n, n, n]
+    want = [] if case.get("only_relnode") else [n, n, n]
     if memory:
         ne = lambda cs: sum(1 for _, _, sl in cs for k, _ in sl if k == "e")   # noqa: E731
         want += [ne(memory["cons"]), ne([memory["cons"][j] for j in memory["redo"]]), ne(memory["cons"] + [memory["late"]])]
     if case.get("layout"):
         want += [2 * len(case["layout"]["entries"]), len(case["layout"]["entries"])]
+    if case.get("relnode"):
+        want += [len(case["relnode"]["entries"])] * 3
     if any(got < w for got, w in zip(ncons, want)):
         ctx.violation(f"e2e-missing: consumers that had never run did not run (per build: {ncons}, expected ≥ {want})", rep, finding=fid)
 
@@ -1017,12 +1157,15 @@ def campaign(ctx):
         # ---- inputs
         jobs = []    # (label, project, names, entries, hashseeds)
         other_corpus = []
+        corpus_cases: list = []
         for n, f in enumerate(sorted((common.VERIF / "corpus" / "C20").glob("*.json"))):   # 0 corpus first
             inp = json.loads(f.read_text())["input"]
             if inp.get("kind") in ("paths", "name"):
                 nm = [s_of(x) for x in inp["names"]] if inp["kind"] == "paths" else [s_of(inp["name"])]
                 en = [s_of(e) for e in inp.get("entries", [])] or ["e"]
                 jobs.append((f"corpus{n}", new_project(base, f"corpus{n}"), nm, en, [1, 2]))
+            elif inp.get("kind") == "e2e":
+                corpus_cases.append(inp["case"])       # run together with the generated end-to-end cases
             else:
                 other_corpus.append(inp)
             ctx.dist["corpus"] += 1
@@ -1043,7 +1186,7 @@ def campaign(ctx):
         trace_seeds = [rng.randrange(1, 1 << 16) for _ in range(4)]
         # 3 end to end
         ne = ctx.scale(8, 60)    # quick: one wave of 8 parallel projects
-        cases = [random_e2e(rng, i, f5=(i == ne - 1)) for i in range(ne)]
+        cases = corpus_cases + [random_e2e(rng, i, f5=(i == ne - 1)) for i in range(ne)]
         # ---- the real code, concurrently
         with ThreadPoolExecutor(max_workers=len(jobs) + 1 + min(8, ne)) as ex:
             f_names = [ex.submit(run_names, proj, nm, en, hs) for _, proj, nm, en, hs in jobs]
